@@ -171,6 +171,14 @@ def handle : List SExp → String
     match intList? vals with
     | some vals => showNatList (sortIdx intLt vals)
     | _ => "bad-op"
+  | [.atom "spec-filter-num", docs, s, e, sx, ex] =>
+    match listOf? natList? docs, optNat? s, optNat? e, sx.bool?, ex.bool? with
+    | some docs, some s, some e, some sx, some ex => showNatList (filterIdxNum docs s e sx ex)
+    | _, _, _, _, _ => "bad-op"
+  | [.atom "spec-filter-rat", docs, s, e, sx, ex] =>
+    match listOf? (listOf? rat?) docs, opt? rat? s, opt? rat? e, sx.bool?, ex.bool? with
+    | some docs, some s, some e, some sx, some ex => showNatList (filterIdx ratLt docs s e sx ex)
+    | _, _, _, _, _ => "bad-op"
   | [.atom "spec-sort-float", vals] =>
     match natList? vals with
     | some vals => showNatList (sortIdx totalLt vals)
